@@ -4,7 +4,10 @@ pub fn main(args: &util::Args) {
     let file = &args.rest[0];
     let src = std::fs::read_to_string(file).expect("read");
     let dir = util::scratch_dir("probe");
-    match util::compile_text(&dir, &src) {
+    // `--here`: compile the file where it lives (sibling files of the package, imported packages)
+    let here = args.rest.iter().any(|a| a == "--here");
+    let outcome = if here { util::compile_path(std::path::Path::new(file), &src) } else { util::compile_text(&dir, &src) };
+    match outcome {
         Outcome::Ok(c) => {
             println!("OK");
             if args.rest.iter().any(|a| a == "--dump") {
